@@ -127,6 +127,29 @@ def run(ctx):
                             coq_str(redirect), coq_str(u), coq_str(salt),
                             "None" if st == "ephemeral" else "(Some %s)" % coq_str(sub))
                         cases.append((term, rec))
+            # ---- a further authorization request from the same browser (session cookie of the first response replayed),
+            #      same client, other state/nonce: a new grant under the live session
+            for u in sess.USERS[:2]:
+                for c in sess.CLIENTS:
+                    o1 = rs.op_authz(u, c, ["openid", "email"])
+                    ck = rs.last_cookie
+                    if o1[0] != "ok" or not ck:
+                        continue
+                    g1 = rs.grants[rs.tok_grant[o1[1][0]]][1]
+                    o2 = rs.op_authz(u, c, ["openid", "profile"], extra={"state": "other-state", "nonce": "other-nonce"}, cookie=ck)
+                    if o2[0] != "ok":
+                        continue
+                    g2 = rs.grants[rs.tok_grant[o2[1][0]]][1]
+                    st = rs.ctx.cdb[c].get("subject_type") or "public"
+                    rec = {"user": u, "client": c, "subject_type": st, "cookie_flow": True, "same_grant": g1 is g2, "subs": [g1.sub, g2.sub]}
+                    ctx.case_seen(rec, True)
+                    ctx.count("cookie-flow:%s:%s" % (st, "same-grant" if g1 is g2 else "new-grant"))
+                    if g1 is not g2:
+                        if st == "ephemeral" and g1.sub == g2.sub:
+                            ctx.violation("ephemeral-repeat", "two grants of one browser session at ephemeral client %s share sub %s" % (c, g1.sub), rec)
+                        if st != "ephemeral" and g1.sub != g2.sub:
+                            ctx.violation("unstable", "second grant in the same browser session got another sub (%s at %s)" % (u, c), rec)
+                        seen.setdefault((u, c), []).append(g2.sub)
             # ---- oracle: stability, type rules (written from the property text)
             eph = []
             for (u, c), subs in seen.items():
